@@ -38,7 +38,7 @@ CHECKS = {
    level="exploration",
    text="Differential oracle unchecked vs checked binary codec inside the documented contract (exact-size window from the checked size; complete reference-encoded input): identical bytes, identical values and consumed counts, identical skip counts for a partial reader; guard regions around the window; dev-profile ub_checks abort => supervised worker death => violation.",
    design="6/C11",
-   note="Hand-written codec + generated types (decode equality/consumed bytes, encode into guarded exact-size windows, half of the values carry unknown fields skipped or retained). ASan/Miri layers: thorough tier. Guard regions cannot see out-of-window reads; ub_checks cover get_unchecked only.",
+   note="Hand-written codec + generated types (decode equality/consumed bytes, encode into guarded exact-size windows, half of the values carry unknown fields skipped or retained). ASan/Miri layers (hand-written codec and the generated keep-mode code of corpus q0): thorough tier. Guard regions cannot see out-of-window reads; ub_checks cover get_unchecked only.",
    technique="runtime monitoring: differential oracle + guard regions + std ub_checks, supervised processes"),
  "C12": dict(
    level="exploration",
